@@ -36,14 +36,21 @@ func VerifC06Leave() {
 	n := 1 + verifnd.Choice(nEnt)
 	ids := make([]uint32, n)
 	pers := make([]bool, n)
-	attach := verifnd.Bool() // with or without attachments
+	// without attachments; with all of them made by the owner; or with the entity action (which needs no
+	// ownership) set by another member, so that the leaver itself never used the action module
+	attachMode := verifnd.Choice(3)
+	attach := attachMode != 0
 	for i := 0; i < n; i++ {
 		pers[i] = verifnd.SymBool()
 		ids[i] = lv.addEntity(pers[i], symPose())
 		if attach {
 			lv.expectOne(&hagallpb.EntityComponentAddRequest{Type: hagallpb.MsgType_MSG_TYPE_ENTITY_COMPONENT_ADD_REQUEST, Timestamp: vts(), RequestId: 10, EntityComponentTypeId: tid, EntityId: ids[i], Data: verifnd.Bytes(8)},
 				hagallpb.MsgType_MSG_TYPE_ENTITY_COMPONENT_ADD_RESPONSE, "setup.comp_add")
-			lv.expectOne(&vikjapb.EntityActionRequest{Type: vikjapb.MsgType_MSG_TYPE_VIKJA_ENTITY_ACTION_REQUEST, Timestamp: vts(), RequestId: 11,
+			setter := lv
+			if attachMode == 2 {
+				setter = m2
+			}
+			setter.expectOne(&vikjapb.EntityActionRequest{Type: vikjapb.MsgType_MSG_TYPE_VIKJA_ENTITY_ACTION_REQUEST, Timestamp: vts(), RequestId: 11,
 				EntityAction: &vikjapb.EntityAction{EntityId: ids[i], Name: "act", Timestamp: vts()}},
 				hagallpb.MsgType(vikjapb.MsgType_MSG_TYPE_VIKJA_ENTITY_ACTION_RESPONSE), "setup.action")
 			lv.expectOne(&odalpb.AssetInstanceAddRequest{Type: odalpb.MsgType_MSG_TYPE_ODAL_ASSET_INSTANCE_ADD_REQUEST, Timestamp: vts(), RequestId: 12, EntityId: ids[i], AssetId: "asset"},
